@@ -48,7 +48,11 @@ def main(c):
             keyid, secret, region = rs(UNRES, ln()), rs(PRINT, ln()), rs(UNRES, rnd.choice([0, 1, 3, 4, 9, 14, 200]))
             body = rnd.choice(["none", "none:%d" % rnd.choice([1, 5, 64, 4096, 1 << 30]), "-", g.hx(g.rbytes(rnd, rnd.choice([1, 55, 64, 1000, 4000])))])
             if var in ("s3h", "s3q"):
-                a, b, cc = rnd.choice(["GET", "PUT", "HEAD", "DELETE", rs(UNRES, 3)]), rs(UNRES, ln()), "/" + rs(UNRES + "/", ln())
+                # (the module signs method, bucket and path as given: any printable byte, "%XX" sequences and doubled slashes included)
+                wide = rnd.random() < 0.3
+                a = rnd.choice(["GET", "PUT", "HEAD", "DELETE", "POST", rs(UNRES, 3), rs(PRINT, 4) if wide else "get"])
+                b = rs(UNRES, ln()) if not wide else rs(PRINT, ln())
+                cc = "/" + (rs(UNRES + "/", ln()) if not wide else rs(PRINT + "//%%", ln()))
             elif var == "svc":
                 # (service names that other entry points of the module treat specially must be ordinary here)
                 a, b, cc = rnd.choice(["ec2", "sns", "email", "dynamodb", "s3", "dynamodb", "DynamoDB", "streams.dynamodb", rs(UNRES, rnd.choice([1, 2, 3, 10]))]), "", ""
